@@ -17,7 +17,7 @@ BIG = 16384  # 4 samples of the 4096-byte type
 LABELS = {
     "C08": {"panic", "err", "prefix", "final_out", "unsettled", "constructor"},
     "C09": {"window", "leak", "spin", "probe", "misdirected", "satisfied_wait", "close_verdict", "verdict_side"},
-    "C12": {"tags_ref", "tagmap", "tag_value"},
+    "C12": {"tags_ref", "tagmap", "tag_value", "fn_tags"},
     "C10": {"fn_out", "fn_tags", "panic", "err", "prefix", "final_out", "unsettled", "constructor"},
     "C19": {"synclaw", "eof", "fn_out", "fn_tags", "panic", "prefix", "final_out", "window", "leak", "spin", "probe", "misdirected", "satisfied_wait", "close_verdict", "tags_ref", "tagmap", "unsettled", "constructor"},
 }
@@ -206,6 +206,20 @@ def fn_table(thorough):
     for code, allowed in codes:
         E("CorrelateAccessCode", {"code": code, "allowed": allowed}, "bits", 60, F("corr", code=code, allowed=allowed), sync=True)
         E("CorrelateAccessCodeTag", {"code": code, "allowed": allowed}, "bits", 60, F("corrtag", code=code, allowed=allowed), sync=True)
+    # long codes around machine word sizes (31..33, 63..65 symbols): the input holds the code, the
+    # code with one and with two symbols flipped, and the code cut short
+    import random as _r
+    for ln, allowed in ((31, 0), (32, 1), (33, 0), (63, 1), (64, 0), (64, 1), (65, 0)) if thorough else ((32, 1), (64, 0), (64, 1), (65, 0)):
+        rr = _r.Random(1000 + ln)
+        code = [rr.randint(0, 1) for _ in range(ln)]
+        one, two = list(code), list(code)
+        one[ln // 3] ^= 1
+        two[1] ^= 1
+        two[ln - 2] ^= 1
+        noise = lambda k: [rr.randint(0, 1) for _ in range(k)]
+        data = noise(7) + code + noise(5) + one + noise(3) + two + code[:ln - 1] + noise(2) + code + code
+        E("CorrelateAccessCode", {"code": code, "allowed": allowed}, "bits", 0, F("corr", code=code, allowed=allowed), sync=True, extra={"data": [data]})
+        E("CorrelateAccessCodeTag", {"code": code, "allowed": allowed}, "bits", 0, F("corrtag", code=code, allowed=allowed), sync=True, extra={"data": [data]})
     # byte-valued input and codes: symbols are compared for equality, not by their low bit
     for code, allowed in (([1, 0, 1], 0), ([3, 2], 0), ([0], 0), ([255, 1, 0], 1)):
         E("CorrelateAccessCode", {"code": code, "allowed": allowed}, "smallbytes", 80, F("corr", code=code, allowed=allowed), sync=True)
@@ -461,6 +475,9 @@ def run(ctx, table=None, labels=None):
     thorough = ctx.thorough()
     if table is None:
         table = {"C10": fn_table, "C19": lambda t: user_table()}.get(prop, block_table)(thorough)
+        if prop == "C12":
+            # blocks that ADD tags have an independent definition of where the tags go (BlockFns)
+            table = table + [e for e in fn_table(thorough) if e["fn"]["kind"] in ("corrtag", "burst", "v2s", "vecsource")]
     if thorough:
         scheds = tlc_schedules(ctx, 7, 6)
         stride, nrandom = 3, 24
